@@ -22,3 +22,16 @@ package auth
 //@   ensures[C10] err == nil && auth.Method == headers.AuthMethodDigest ==> auth.Nonce == nonce && auth.Realm == realm && auth.Username == user && urlok(req.URL, auth.URI, req.Method == base.Setup)
 //@   ensures[C10] err == nil && auth.Method == headers.AuthMethodDigest && (auth.Algorithm == nil || *auth.Algorithm == headers.AuthAlgorithmMD5) ==> enabled(old(methods), VerifyMethodDigestMD5) && auth.Response == md5spec(md5spec(user+":"+realm+":"+pass) + ":" + nonce + ":" + md5spec(string(req.Method)+":"+auth.URI))
 //@   ensures[C10] err == nil && auth.Method == headers.AuthMethodDigest && auth.Algorithm != nil && *auth.Algorithm != headers.AuthAlgorithmMD5 ==> *auth.Algorithm == headers.AuthAlgorithmSHA256 && enabled(old(methods), VerifyMethodDigestSHA256) && auth.Response == sha256spec(sha256spec(user+":"+realm+":"+pass) + ":" + nonce + ":" + sha256spec(string(req.Method)+":"+auth.URI))
+
+// The Authorization header the client builds (C10 completeness half, C20: no credentials
+// in the URI): the digest URI is the string of the request URL with the user-info removed,
+// and the response is the hash term Verify expects for the same user, realm, password,
+// nonce, method and URI.
+//@ func (se *Sender) AddAuthorization
+//@   requires se.authHeader != nil && req.URL != nil
+//@   ensures[C10] h.Method == se.authHeader.Method && h.Username == se.User
+//@   ensures[C10] se.authHeader.Method == headers.AuthMethodBasic ==> h.BasicPass == se.Pass
+//@   ensures[C10] se.authHeader.Method != headers.AuthMethodBasic ==> h.Realm == se.authHeader.Realm && h.Nonce == se.authHeader.Nonce && h.Algorithm == se.authHeader.Algorithm
+//@   ensures[C10] se.authHeader.Method != headers.AuthMethodBasic ==> h.URI == urlstr(req.URL.Scheme, "", nil, req.URL.Host, req.URL.Path, req.URL.RawPath, false, req.URL.ForceQuery, req.URL.RawQuery, "", "")
+//@   ensures[C10] se.authHeader.Method != headers.AuthMethodBasic && (se.authHeader.Algorithm == nil || *se.authHeader.Algorithm == headers.AuthAlgorithmMD5) ==> h.Response == md5spec(md5spec(se.User+":"+se.authHeader.Realm+":"+se.Pass) + ":" + se.authHeader.Nonce + ":" + md5spec(string(req.Method)+":"+h.URI))
+//@   ensures[C10] se.authHeader.Method != headers.AuthMethodBasic && !(se.authHeader.Algorithm == nil || *se.authHeader.Algorithm == headers.AuthAlgorithmMD5) ==> h.Response == sha256spec(sha256spec(se.User+":"+se.authHeader.Realm+":"+se.Pass) + ":" + se.authHeader.Nonce + ":" + sha256spec(string(req.Method)+":"+h.URI))
